@@ -82,10 +82,19 @@ static int damage(int kind, unsigned char *m, size_t flen, cfg_t c, int n, const
     case 55: *name = "size+2";         wr32(m + 4, (uint32_t)(bs + 2)); reseal(m); return 1;
     case 56: *name = "size+4096";      wr32(m + 4, (uint32_t)(bs + 4096)); reseal(m); return 1;
     case 57: *name = "size=2^31";      wr32(m + 4, 0x80000000u); reseal(m); return 1;
+    /* fragments of writers older than 1.2.0 (no metadata CRC; the slot holds anything), native and opposite order */
+    case 58: *name = "libver=1.0.5";       wr32(m + 63, 0x010005); wr32(m + 67, 0); return 1;
+    case 59: *name = "twin+libver=1.0.5";  wr32(m + 63, 0x010005); make_twin(m); wr32(m + 67, 0); return 1;
+    case 60: *name = "twin+libver=1.1.1";  wr32(m + 63, 0x010101); make_twin(m); wr32(m + 67, 0x12345678u); return 1;
+    case 61: *name = "twin+libver=1.1.255"; wr32(m + 63, 0x0101ff); make_twin(m); return 1;
+    case 62: *name = "twin+libver=0.7.0";  wr32(m + 63, 0x000700); make_twin(m); wr32(m + 67, 0); return 1;
+    case 63: *name = "twin+libver=1.2.0-unsealed"; wr32(m + 63, 0x010200); make_twin(m); m[14] ^= 1; return 1;
+    case 64: *name = "libver=1.5.5";       wr32(m + 63, 0x010505); reseal(m); return 1;       /* older release, larger low digits */
+    case 65: *name = "libver=0.9.9";       wr32(m + 63, 0x000909); return 1;
     default: return 0;
     }
 }
-#define N_DAMAGE 58
+#define N_DAMAGE 66
 
 static void cat_stripe(cfg_t c, size_t len, int legacy, int tier, int reader_env) {
     stripe_t s;
@@ -103,7 +112,7 @@ static void cat_stripe(cfg_t c, size_t len, int legacy, int tier, int reader_env
         { char key[64]; snprintf(key, sizeof key, "cat.%s", name); stat_add(key, 1); }
         /* readers (the two that take no length trust the header's size: not given inflated sizes) */
         op_hdrinv(mut, 0);
-        if (kind < 55 || c.ct != 2) { op_meta(mut, s.flen, kind % 5 == 0 ? 2 : 1); op_fraginv(c, mut, s.flen, 1); }
+        if (kind < 55 || kind > 57 || c.ct != 2) { op_meta(mut, s.flen, kind % 5 == 0 ? 2 : 1); op_fraginv(c, mut, s.flen, 1); }
         /* the stripe with the damaged member */
         for (int i = 0; i < n; i++) fr[i] = i == fi ? (char *)mut : s.all[i];
         op_stripe(c, n, fr, s.flen);
